@@ -825,6 +825,42 @@ def stale_id_rule(repo, rid):
 def rule_a14(repo):
     return stale_id_rule(repo, 'C13.A14')
 
+def rule_a15(repo):
+    """exists_elim opens the leading existential quantifiers of a fact with the names the user gave: `vars, body = strip_exists(prop, names)`.
+    How many were opened is `len(vars)` - with more names than quantifiers the spare names are ignored.  Everything that is counted
+    afterwards (lines to insert, the position of the assume line, the citations added to the closing step) is counted from what was
+    opened, never from what was asked for: counted from `len(names)`, a spare name leaves an empty line in the block that the closing
+    step cites, and the proof no longer checks."""
+    res = RuleResult('C13.A15', 'after opening quantifiers, lines are counted from the variables that were opened, not from the names that were given', floor=1)
+    m = repo.module(METHOD)
+    n_found = 0
+    for f in m.all_funcs:
+        strips = [a for a in ast.walk(f.node) if isinstance(a, ast.Assign) and isinstance(a.targets[0], (ast.Tuple, ast.List)) and len(a.targets[0].elts) == 2 and
+                  isinstance(a.value, ast.Call) and (call_name(a.value) or '').split('.')[-1] in ('strip_exists', 'strip_forall') and len(a.value.args) >= 2 and
+                  isinstance(a.targets[0].elts[0], ast.Name) and isinstance(a.value.args[1], ast.Name)]
+        if not strips:
+            continue
+        flow = flow_of(f.node)
+        for a in strips:
+            opened, asked = a.targets[0].elts[0].id, a.value.args[1].id
+            n_found += 1
+            bad = []
+            for c in ast.walk(f.node):
+                if not (isinstance(c, ast.Call) and (call_attr(c) in ('add_line_before', 'incr_id') or is_name(c.func, 'range'))):
+                    continue
+                for arg in c.args:
+                    for nm in flow.names_closure(arg) | {x.id for x in ast.walk(arg) if isinstance(x, ast.Name)}:
+                        for _k, rhs in flow.defs.get(nm, []) + [('value', arg)]:
+                            for ln in ast.walk(rhs):
+                                if isinstance(ln, ast.Call) and is_name(ln.func, 'len') and ln.args and is_name(ln.args[0], asked):
+                                    bad.append((c, ln))
+            res.add('%s :: %s :: counted-from-opened(%s)' % (METHOD, f.qualname, opened), not bad,
+                    'line arithmetic uses len(%s)' % opened if not bad else
+                    'line %d: `%s` is computed from `len(%s)`, the number of names given, not from `len(%s)`, the number of quantifiers opened: with a spare '
+                    'name an empty line is inserted and cited' % (bad[0][0].lineno, src(bad[0][0], 50), asked, opened), '%s:%d' % (METHOD, bad[0][0].lineno if bad else a.lineno))
+    need(n_found, 'server/method.py: no method that opens quantifiers with given names found')
+    return res
+
 
 def rules(repo):
-    return [rule_a1(repo), rule_a2(repo), rule_a3(repo), rule_a4(repo), rule_a5(repo), rule_a6(repo), rule_a7(repo), rule_a8(repo), rule_a9(repo), rule_a10(repo), rule_a11(repo), rule_a12(repo), rule_a13(repo), rule_a14(repo)]
+    return [rule_a1(repo), rule_a2(repo), rule_a3(repo), rule_a4(repo), rule_a5(repo), rule_a6(repo), rule_a7(repo), rule_a8(repo), rule_a9(repo), rule_a10(repo), rule_a11(repo), rule_a12(repo), rule_a13(repo), rule_a14(repo), rule_a15(repo)]
